@@ -331,6 +331,11 @@ class Program:
             return f(node.left) + f(node.right)
         if isinstance(node, ast.BinOp) and isinstance(node.op, ast.BitOr):
             return f(node.left) | f(node.right)
+        if isinstance(node, ast.BinOp) and isinstance(node.op, ast.BitAnd):
+            l_a, r_a = f(node.left), f(node.right)
+            if isinstance(l_a, (set, frozenset, int)) and isinstance(r_a, (set, frozenset, int)):
+                return l_a & r_a
+            raise CannotFold(f"& not foldable: {unparse(node)[:60]}")
         if isinstance(node, ast.BinOp) and isinstance(node.op, (ast.Sub, ast.Mult, ast.FloorDiv, ast.Mod)):
             import operator as _o
             l2, r2 = f(node.left), f(node.right)
